@@ -209,7 +209,7 @@ func init() {
 		Expl: "From VerifierChip.Verify: an n-bit range check executes on every path on the value stored in FriChallenges.FriPowResponse of the derived challenges, with width expression 64 − <FRI config>.ProofOfWorkBits, and that value depends on the proof's PowWitness; the width check is live in every backend (C06 obligations) and constant widths are aligned (W3). The transcript order (witness observed before the response is squeezed) is C11's obligation. The arithmetic 'width w ⇔ ≥ 64−w leading zeros of a canonical 64-bit value' is argued in DESIGN.md, not checked.",
 		Rule: "one obligation per clause"})
 	registerProp(&propDef{ID: "C12", Rules: withState("C12", func(cx *Ctx) []Obligation { return append(rulesC12(cx), rulesC10(cx)...) }), Floor: 12,
-		Expl: "From VerifierChip.Verify: per query round (loop covering every round, co-indexed by a refusal guard) and per tree, an equality executes on every path between a digest that depends on the opened leaf (both coordinates of all evaluations for commit-phase trees), on every sibling (full-range hashing loop) and on the query-index bits, and a cap entry selected by four bits from the top CapHeight bits of the same decomposition; initial tree t is compared against caps[t] in the order [ConstantSigmasCap, WiresCap, PlonkZsPartialProductsCap, QuotientPolysCap]. The Merkle path is folded unconditionally (O12.4): the running digest of the next level is exactly element 0 of the permutation applied at this level, feeds that permutation, and is compared as it is. Plus C10's structural clauses (the leaf is hashed through an injective, non-wrapping limb packing that absorbs every element once). Left/right ordering and the lookup arithmetic are pinned by the positive tests and not claimed.",
+		Expl: "From VerifierChip.Verify: per query round (loop covering every round, co-indexed by a refusal guard) and per tree, an equality executes on every path between a digest that depends on the opened leaf (both coordinates of all evaluations for commit-phase trees), on every sibling (full-range hashing loop) and on the query-index bits, and a cap entry selected by four bits from the top CapHeight bits of the same decomposition; initial tree t is compared against caps[t] in the order [ConstantSigmasCap, WiresCap, PlonkZsPartialProductsCap, QuotientPolysCap]. The leaf index of the commit-phase tree of step i comes from a cursor that accumulates over the reduction steps (O12.5). The Merkle path is folded unconditionally (O12.4): the running digest of the next level is exactly element 0 of the permutation applied at this level, feeds that permutation, and is compared as it is. Plus C10's structural clauses (the leaf is hashed through an injective, non-wrapping limb packing that absorbs every element once). Left/right ordering and the lookup arithmetic are pinned by the positive tests and not claimed.",
 		Rule: "one obligation per tree family, index provenance, caps order, packing accumulator"})
 	registerProp(&propDef{ID: "C13", Rules: withState("C13", rulesC13), Floor: 11,
 		Expl: "Presence and coverage only: per round and step the two coordinate equalities between the bit-selected claimed evaluation and the running evaluation; after the steps the two equalities against the final polynomial at the folded point; the invertibility assertions; coverage of all rounds; the running evaluation is recomputed in every step from that step's data (no value stored into it in the step loop depends on its previous value) and is only ever compared (O13.6). The domain point, combination and interpolation formulas are not decided.",
@@ -220,15 +220,23 @@ func init() {
 		Expl: "Presence and coverage only: for every challenge round (full-range loop, count = Config.NumChallenges) an extension equality (both coordinates) between the vanishing value (depending on gates, wires, sigmas, Z, Z(next), partial products, public-input hash, challenges) and Z_H·quotient (from QuotientPolys via ReduceWithPowers); the L₀ division asserts existence; the partial-product openings are read through consecutive per-round windows (O16.5); the chain of running products is closed at both ends on every path — Z(ζ) and Z(gζ) are read and used unconditionally by the function that closes the chain, so a shape with no partial products still gets its check (O16.6). The formula is not decided.",
 		Rule: "one obligation per coordinate and assertion"})
 	registerProp(&propDef{ID: "C05", Rules: withState("C05", withC06(func(cx *Ctx) []Obligation {
-		return append(append(rulesC05(cx), rulesW3(cx, "C05")...), rulesMagnitude(cx, "C05")...)
+		obs := append(append(rulesC05(cx), rulesW3(cx, "C05")...), rulesMagnitude(cx, "C05")...)
+		// the witnessed inverse is determined only if its product check is live for every invertible operand
+		for _, o := range rulesC07(cx) {
+			if strings.HasPrefix(o.Key, "C07/O7.1/") {
+				o.Key = "C05/R1/Inverse/" + strings.TrimPrefix(o.Key, "C07/O7.1/")
+				obs = append(obs, o)
+			}
+		}
+		return obs
 	})), Floor: 56,
-		Expl: "R1 hint discipline, generic over every Compiler().NewHint call of the module: each hint output is itself the argument of a must-executed range check (bound recorded) and a must-executed equality ties all outputs to all inputs; W1: both sides of each tying equality, evaluated as polynomial bounds over the enforced output bounds and the operand contract (< p), stay below the BN254 modulus, per constant quotient width reaching the site through the call graph (interprocedural constant propagation; globals only if never re-assigned); W3 alignment of every constant width reaching the n-bit range primitive; plus C06's obligations (a backend that drops checks voids the bounds). Decides uniqueness of the witnessed result (no wrap) structurally; does not bound operand magnitudes at every reduction site of the whole verifier (W2, see DESIGN).",
+		Expl: "R1 hint discipline (plus, for Inverse, the polarity of the guarded product check: compared for x ≠ 0, constant 1 for x = 0), generic over every Compiler().NewHint call of the module: each hint output is itself the argument of a must-executed range check (bound recorded) and a must-executed equality ties all outputs to all inputs; W1: both sides of each tying equality, evaluated as polynomial bounds over the enforced output bounds and the operand contract (< p), stay below the BN254 modulus, per constant quotient width reaching the site through the call graph (interprocedural constant propagation; globals only if never re-assigned); W3 alignment of every constant width reaching the n-bit range primitive; plus C06's obligations (a backend that drops checks voids the bounds). Decides uniqueness of the witnessed result (no wrap) structurally; does not bound operand magnitudes at every reduction site of the whole verifier (W2, see DESIGN).",
 		Rule: "one obligation per hint output, per tying equality, per (hint site × reaching width), per width reaching the range primitive"})
 	registerProp(&propDef{ID: "C07", Rules: withState("C07", func(cx *Ctx) []Obligation {
 		obs := append(append(rulesC07(cx), rulesMulAcc(cx, "C07", "goldilocks")...), rulesParamRelevance(cx, "C07", func(n string) bool { return !strings.Contains(n, "Extension") && !strings.Contains(n, "Algebra") })...)
 		return append(obs, rulesHintBodies(cx, "C07")...)
 	}), Floor: 30,
-		Expl: "Narrow structural clauses only: Inverse's product assertion is conditioned on IsZero(x) and the flag derives from it; Reduce forwards the never-reassigned constant RANGE_CHECK_NB_BITS ≥ 144; every reducing method of gl.Chip returns a hint output confined to [0,p) by a must-executed canonical range check. Plus the MulAcc accumulator discipline (MA) at every MulAcc site of the goldilocks package: the accumulator is owned and dead after the call, so the result does not depend on the R1CS builder re-using its storage. Plus honest hints (HB): every hint output stays below the bound of the range check its gadget applies, on every path of the hint body that returns nil, and no possibly-nil *big.Int is handed back (interval analysis of the hint bodies; inverse of zero must produce a value). Numerical exactness for all operands is not decided.",
+		Expl: "Narrow structural clauses only: Inverse's product assertion is conditioned on IsZero(x) with the right polarity (x = 0 selects the constant 1, x ≠ 0 the product) and the flag is 1 − IsZero(x); Reduce forwards the never-reassigned constant RANGE_CHECK_NB_BITS ≥ 144; every reducing method of gl.Chip returns a hint output confined to [0,p) by a must-executed canonical range check. Plus the MulAcc accumulator discipline (MA) at every MulAcc site of the goldilocks package: the accumulator is owned and dead after the call, so the result does not depend on the R1CS builder re-using its storage. Plus honest hints (HB): every hint output stays below the bound of the range check its gadget applies, on every path of the hint body that returns nil, and no possibly-nil *big.Int is handed back (interval analysis of the hint bodies; inverse of zero must produce a value). Numerical exactness for all operands is not decided.",
 		Rule: "one obligation per clause / per reducing method of gl.Chip (enumerated from the method set) / per MulAcc site"})
 	registerProp(&propDef{ID: "C08", Rules: withState("C08", func(cx *Ctx) []Obligation {
 		return append(append(append(rulesC08(cx), rulesC08Widths(cx)...), rulesMagnitude(cx, "C08")...), rulesParamRelevance(cx, "C08", func(n string) bool { return strings.Contains(n, "Extension") })...)
